@@ -333,6 +333,8 @@ def main(chk):
     ob_fanout(chk, ir)
     ob_history(chk, ir, 3 if chk.tier == "quick" else 4)
     ob_weblogins(chk, ir)
+    from checks.c12 import ob_authorize
+    ob_authorize(chk, ir, sp_login=True)      # service-provider logins: the authorization endpoint (environment shared with C12)
 
 
 if __name__ == '__main__':
